@@ -1,6 +1,6 @@
 #!/usr/bin/env python3
 """SENSITIVITY.md from seeded/*/meta.json and seeded/RESULTS.txt (written by lib/seeded_matrix.sh)."""
-import json, os, re
+import json, os, re, glob
 V = os.path.dirname(os.path.dirname(os.path.abspath(__file__)))
 res = {}
 p = os.path.join(V, "seeded", "RESULTS.txt")
@@ -13,38 +13,56 @@ if os.path.exists(p):
             res.setdefault(m.group(1), []).append(cur)
         elif cur is not None and line.startswith("  ") and not cur["first"]:
             cur["first"] = line.strip()[:200]
-out = ["# SENSITIVITY - seeded changes against the checks", "",
-       "Protocol (DESIGN.md 12.5): one independently written change per property (sub-agent given only the property text and a scratch",
-       "worktree; each compiles and passes the unedited suite), applied in a scratch worktree, the check of the same property run on the",
-       "quick tier with two seeds (`lib/seeded_matrix.sh`). `time` includes rebuilding the library and shrinking the first failure;",
-       "`caught` = exit 1 with at least one VIOLATION line. History of each check before it was strengthened is in the last column.", ""]
-hist = {"C02": "missed on seeds 1-3 as first built (C08's check caught it on seed 3); generator strengthened (Misc below an object and its parent)",
+hist1 = {"C02": "missed on seeds 1-3 as first built (C08's check caught it on seed 3); generator strengthened (Misc below an object and its parent)",
         "C05": "missed as first built (a round trip that starts from XML cannot see objects the importer drops); import-fidelity oracle + 32-bit PCI domains added",
         "C06": "missed on seeds 1-2 as first built; mutation targets and count-mismatch mutations added",
         "C07": "missed as first built (interleaves only generated outermost-first); arbitrary type order generated",
         "C16": "missed as first built; already-applied entries now exercised in the rollback oracle",
         "C20": "missed as first built (no physical indexes); --po/--pi relation added"}
-out += ["| property | seeded change | trigger | seed 1 | seed 2 | first violation reported | history |", "|---|---|---|---|---|---|---|"]
-ncaught = 0
-for i in range(1, 21):
-    pid = "C%02d" % i
-    try:
-        m = json.load(open(os.path.join(V, "seeded", pid, "meta.json")))
-    except Exception:
-        m = {}
-    runs = {r["seed"]: r for r in res.get(pid, []) if r["check"] == pid}
-    def cell(s):
-        r = runs.get(s)
-        if not r:
-            return "not run"
-        return ("caught (%d s, %d lines)" % (r["time"], r["nviol"])) if r["exit"] == 1 and r["nviol"] > 0 else ("MISSED (%d s)" % r["time"]) if r["exit"] == 0 else "error exit %d" % r["exit"]
-    first = next((r["first"] for r in runs.values() if r.get("first")), "")
-    if any(r["exit"] == 1 and r["nviol"] > 0 for r in runs.values()):
-        ncaught += 1
-    out.append("| %s | %s | %s | %s | %s | %s | %s |" % (pid, str(m.get("summary", "?")).replace("|", "/").replace("\n", " ")[:220], str(m.get("trigger", "?")).replace("|", "/").replace("\n", " ")[:220],
-                                                 cell(1), cell(2), first.replace("|", "/"), hist.get(pid, "caught as first built")))
-out += ["", "Caught by the check of their own property on at least one of the two seeds: %d of 20." % ncaught, "",
+try:
+    notes = json.load(open(os.path.join(V, "seeded", "NOTES.json")))   # dir -> what was strengthened after a miss
+except Exception:
+    notes = {}
+out = ["# SENSITIVITY - seeded changes against the checks", "",
+       "Protocol (DESIGN.md 12.5 and 12.8): independently written changes (a fresh sub-agent per property and round, given only the property text, the changes",
+       "already made, and a scratch worktree; each change compiles and passes the unedited suite, each was confirmed with `lib/verify_seeded.sh`), applied in a",
+       "scratch worktree, the check of the same property run on the quick tier (`lib/seeded_matrix.sh`). `time` includes rebuilding the library and shrinking",
+       "the first failure; `caught` = exit 1 with at least one VIOLATION line. `first run` is the verdict of the check as it was when the change arrived.", ""]
+dirs = sorted(d for d in os.listdir(os.path.join(V, "seeded")) if os.path.exists(os.path.join(V, "seeded", d, "patch.diff")))
+rounds = {}
+for d in dirs:
+    m = re.match(r"(C\d\d)(?:-r(\d)([AB]))?$", d)
+    if m:
+        rounds.setdefault(int(m.group(2) or 1), []).append(d)
+tot = caught_tot = 0
+for rnd in sorted(rounds):
+    out += ["## Round %d" % rnd, "", "| change | files | what it does / needs | first run | final run(s) | first violation reported | what was strengthened |", "|---|---|---|---|---|---|---|"]
+    nc = 0
+    for d in rounds[rnd]:
+        try:
+            m = json.load(open(os.path.join(V, "seeded", d, "meta.json")))
+        except Exception:
+            m = {}
+        runs = [r for r in res.get(d, []) if r["check"] == d[:3]]
+        def cell(r):
+            return ("caught (seed %d, %d s)" % (r["seed"], r["time"])) if r["exit"] == 1 and r["nviol"] > 0 else ("MISSED (seed %d, %d s)" % (r["seed"], r["time"])) if r["exit"] == 0 else "error exit %d" % r["exit"]
+        fr = m.get("first_run_of_own_check") or []
+        if rnd == 1:
+            first = "missed" if d in hist1 else "caught"
+        else:
+            first = ("caught" if fr and fr[0]["exit"] == 1 and fr[0]["violation_lines"] > 0 else "missed") if fr else "?"
+        first = notes.get("#first", {}).get(d, first)
+        final = "; ".join(cell(r) for r in runs) or "not run"
+        fv = next((r["first"] for r in runs if r.get("first")), "")
+        ok = any(r["exit"] == 1 and r["nviol"] > 0 for r in runs)
+        nc += ok; tot += 1; caught_tot += ok
+        what = str(m.get("summary", "?")).replace("|", "/").replace("\n", " ")
+        if m.get("trigger"):
+            what += " NEEDS: " + str(m["trigger"]).replace("|", "/")
+        out.append("| %s | %s | %s | %s | %s | %s | %s |" % (d, ", ".join(m.get("files", []))[:60], what[:330], first, final, fv.replace("|", "/")[:160], notes.get(d, hist1.get(d, "") if rnd == 1 else "")))
+    out += ["", "Round %d: %d of %d caught by the check of their own property in the final run." % (rnd, nc, len(rounds[rnd])), ""]
+out += ["Total: %d of %d." % (caught_tot, tot), "",
         "Unchanged tree: every check passes on the seeds listed in DESIGN.md 12 / the evidence files; a check that fails on the unchanged tree",
-        "was either a genuine defect (repaired or listed in known_findings.json) or a false alarm that was corrected (DESIGN.md 12.3)."]
+        "was either a genuine defect (repaired or listed in known_findings.json) or a false alarm that was corrected (DESIGN.md 12.3, 12.9)."]
 open(os.path.join(V, "SENSITIVITY.md"), "w").write("\n".join(out) + "\n")
-print("SENSITIVITY.md: %d of 20 caught" % ncaught)
+print("SENSITIVITY.md: %d of %d caught" % (caught_tot, tot))
